@@ -114,6 +114,34 @@ def _check_token_parser(api):
             raise P.Untranslatable("%s: TokenParser.%s calls %s, the model expects %s" % (rel, m, got, calls))
 
 
+# The tokenizer model (lean/Clikit/Model/...) is written by hand against these methods; nothing is generated from them.
+# The checks above say WHAT moved when a familiar thing moves; this is the net under them: the text of every method
+# (docstrings and comments aside) is the text the model was validated against, else the part counts as unread and the
+# correspondence run carries the tie.  (sha256 of `ast.unparse` of the parameters and of each statement, first 16 hex
+# digits; the same under Python 3.11 and 3.12.  Re-pin only together with a re-validation of the model.)
+PINNED = {
+    "__init__": "56773e89a2693166", "parse": "8c0c476b8746b2b9", "_parse": "6a7909f8d44ef933",
+    "_is_valid": "47934d6d12688924", "_next": "d4c598bb3e9913f9", "_parse_token": "41c99abcc38cde39",
+    "_parse_quoted_string": "9625462f43120aa9", "_parse_escape_sequence": "c42de3d147a133ff",
+}
+
+
+def _check_pinned(api):
+    import hashlib
+    P = api.P
+    tree, rel = api.parse("args/token_parser.py")
+    ms = _methods(tree, "TokenParser", rel, P)
+    if sorted(ms) != sorted(PINNED):
+        raise P.Untranslatable("%s: TokenParser has the methods %s, the tokenizer model was written against %s"
+                               % (rel, sorted(ms), sorted(PINNED)))
+    for name, fn in ms.items():
+        text = ast.unparse(fn.args) + "\n" + "\n".join(ast.unparse(st) for st in P.strip_doc(fn.body))
+        if hashlib.sha256(text.encode()).hexdigest()[:16] != PINNED[name]:
+            raise P.Untranslatable("%s:%d: TokenParser.%s is not the text the hand-written tokenizer model was validated "
+                                   "against" % (rel, fn.lineno, name))
+    P.check_bases(tree, "TokenParser", [], rel)
+
+
 def _check_option_tokens(api):
     """option_tokens = list(itertools.takewhile(lambda arg: arg != "--", self.tokens)) in both raw-args kinds.
 
@@ -204,6 +232,7 @@ def _lean_char(ch):
 
 def generate(api):
     _check_token_parser(api)
+    _check_pinned(api)
     sep = _check_option_tokens(api)
     ranges = _space_ranges()
     n = sum(hi - lo + 1 for lo, hi in ranges)
